@@ -145,7 +145,7 @@ CLAIMED = {
               "equals the number of inter-chain heavy-atom pairs closer than 3 A when no pair is at exactly 3 A (clashes_eq_def_partial) and differs on a concrete pair at exactly 3 A "
               "(clashes_boundary_counterexample = known finding C08-F2, printed as KNOWN-FINDING). Correspondence: generated complexes with hydrogens, missing residues on either side, hydrogen-only residues, "
               "blank names, chain IDs other than A/B, cutoffs 3-8, exact at-cutoff lattice distances."),
-        note=BASE_NOTE + "Float distance = exact distance away from the cutoff band (generated >= 1e-6 off, or exactly on it).",
+        note=BASE_NOTE + "Float distance decision = exact decision outside the proved margin 8u c^2 (Props/C08K.lean: contact_decision_eq, residue_pair_decision_eq for np.min(...) <= cutoff of compute_fnat_fast, strict variants; abstract IEEE rounding contract); generated distances are >= 1e-6 off a cutoff or exactly on it.",
         technique='Lean 4 proof model = definition for both routes + differential correspondence; known finding C08-F2',
         design_ref='DESIGN.md 5/C08, 12'),
     'C13': dict(
@@ -168,8 +168,12 @@ CLAIMED = {
               "union over the other chains and the pair map holds every contacting pair of two different chains exactly once under the atom whose chain sorts first (contacts_all_chains, IsAllChainsPairMap); swapping the "
               "chains transposes the pair map and leaves the sets unchanged (swap_transposes, swap_same_sets); an unknown chain is rejected (unknown_chain_rejected); meaning theorems spell the Spec out index by index; "
               "backbone_names pins the source's list. Correspondence: 2-5 chains on a quarter-Angstrom lattice with Pythagorean offsets hitting cutoffs 3, 5, 7, 8.5, 9 EXACTLY and just inside/outside, hydrogens, "
-              "blank names, non-backbone names, all 2^4 option combinations x all ordered chain pairs x allchains, plus 3CRO (3CRO_H, 1AK4 in the thorough tier)."),
-        note=BASE_NOTE + "Float distance decision = exact decision (generated distances exactly on a cutoff or >= 1e-6 away; discards counted); SQLite returns rows in rowid order; single-model files.",
+              "blank names, non-backbone names, all 2^4 option combinations x all ordered chain pairs x allchains, plus 3CRO (3CRO_H, 1AK4 in the thorough tier). "
+              "Binary64 (Props/C05K.lean, Proofs/FloatMargin.lean): for ANY rounding operator with the IEEE round-to-nearest laws (monotone, exact on representables, relative error 2^-53; RoundOK - proved of the executable "
+              "Py.toDouble on the rationals), the library's np.sqrt(np.sum((q-p)**2,1)) <= cutoff evaluated in NumPy's order decides exactly as d^2 <= c^2 whenever |d^2-c^2| > 8u c^2 (contact_decision_eq); for PDB text "
+              "coordinates the margin is 2^-53 c (8c+1e5) < 1e-10 A^2 (pdb_decision_eq), so for three-decimal coordinates and a decimal cutoff the only undecided case is the squared text distance EQUAL to the cutoff squared "
+              "(pdb_lattice_decision_eq); the harness samples the theorem at its edge (8u..48u) and the NumPy evaluation order bit for bit."),
+        note=BASE_NOTE + "Float distance decision = exact decision: now a theorem outside the margin 8u c^2 (abstract IEEE rounding contract, no overflow/underflow); inside the margin generated distances are exactly on a cutoff; SQLite returns rows in rowid order; single-model files.",
         technique='Lean 4 proof model = set-theoretic spec for all inputs + differential correspondence on at-cutoff lattices',
         design_ref='DESIGN.md 5/C05, 12'),
     'C14': dict(
@@ -179,7 +183,7 @@ CLAIMED = {
               "residue_pairs_are_projection), extension returns exactly all atoms (all backbone atoms in backbone mode) of every residue owning a contact atom - nothing missing, nothing foreign; residues sharing a number "
               "but differing in name or chain are distinct (extension_is_closure, extension_of_call, extension_leaves_pairs, spec_extension_meaning), plus two-chain corollaries against the C05 Spec and rejection of unknown "
               "chains. Correspondence: the C05 generator + residues sharing numbers across chains and names, negative numbers, all option combinations incl. extend_to_residue."),
-        note=BASE_NOTE + "As C05.",
+        note=BASE_NOTE + "As C05 (the float margin theorems are re-exported in Props/C14K.lean).",
         technique='Lean 4 proof (projection/closure for all inputs) + differential correspondence',
         design_ref='DESIGN.md 5/C14, 12'),
     'C03': dict(
